@@ -228,6 +228,26 @@ fn c12_decode_fields_222() {
     decode_fields(2, 2, 2);
 }
 
+// decode: a VALID header with a 17-digit trace id in which ONE byte (symbolic position) is
+// replaced by an arbitrary ASCII byte: result equals the reference parser (every single-byte
+// corruption: a '+', a 'g', an upper-case digit, a '-' anywhere).  The canonical 55-byte header
+// is out of reach (7.1 M steps, out of memory at 24 GB); 17 digits is the shortest field longer
+// than a u64.
+#[kani::proof]
+#[kani::unwind(26)]
+#[kani::stub(core::slice::memchr::memchr, memchr_stub)]
+fn c12_decode_one_corrupted_byte() {
+    let mut buf: [u8; 24] = *b"00-0af7651916cd43dd8-b-1";
+    let i: usize = kani::any();
+    kani::assume(i < 24);
+    let b: u8 = kani::any();
+    kani::assume(b < 128);
+    buf[i] = b;
+    check_decode_against_reference(&buf);
+    kani::cover!(i == 4 && b == b'+', "a '+' inside the trace id");
+    kani::cover!(b == b'-' && i == 10);
+}
+
 // Display of TraceId / SpanId through write! into a pre-sized String: 32 / 16 lowercase hex digits
 // (symbolic position), for all values.
 #[kani::proof]
